@@ -305,8 +305,22 @@ pub fn null_of(ty: &Ty) -> Val {
     }
 }
 
-/// non-null alphabet of a type
+/// non-null alphabet of a type (letters are distinct)
 pub fn alphabet_nn(ty: &Ty) -> Vec<Val> {
+    let mut out = alphabet_raw(ty);
+    let mut seen: Vec<Val> = vec![];
+    out.retain(|v| {
+        if seen.contains(v) {
+            false
+        } else {
+            seen.push(v.clone());
+            true
+        }
+    });
+    out
+}
+
+fn alphabet_raw(ty: &Ty) -> Vec<Val> {
     use DataType::*;
     match ty {
         Ty::Null => vec![],
